@@ -212,24 +212,28 @@ impl DecoderRleMode<'_> {
         bitstream: &mut Bitstream,
         cluster: u8,
     ) -> CodingResult<RleToken> {
-        self.inner
-            .code
-            .read_symbol(bitstream, cluster)
-            .map(|token| {
-                if let Some(token) = token.checked_sub(self.min_symbol) {
-                    RleToken::Repeat(
-                        self.inner
-                            .read_uint_prefilled(bitstream, &self.len_config, token)
-                            + self.min_length,
-                    )
-                } else {
-                    RleToken::Value(self.inner.read_uint_prefilled(
-                        bitstream,
-                        &self.inner.configs[cluster as usize],
-                        token,
-                    ))
-                }
-            })
+        let token = self.inner.code.read_symbol(bitstream, cluster)?;
+        if let Some(token) = token.checked_sub(self.min_symbol) {
+            let num_to_copy = self
+                .inner
+                .read_uint_prefilled(bitstream, &self.len_config, token);
+            // Same check as in the general LZ77 path.
+            let Some(num_to_copy) = num_to_copy.checked_add(self.min_length) else {
+                tracing::error!(
+                    num_to_copy,
+                    min_length = self.min_length,
+                    "LZ77 num_to_copy overflow"
+                );
+                return Err(Error::InvalidLz77Symbol);
+            };
+            Ok(RleToken::Repeat(num_to_copy))
+        } else {
+            Ok(RleToken::Value(self.inner.read_uint_prefilled(
+                bitstream,
+                &self.inner.configs[cluster as usize],
+                token,
+            )))
+        }
     }
 
     /// Returns the cluster mapping of distributions.
